@@ -802,6 +802,8 @@ def _group_func_wrap(
         mask = _val_to_numpy(mask)
         if mask.dtype.kind in "ui":
             fancy_indexing = True
+        elif len(mask) != len(group_key):
+            raise ValueError("Mask must have the same length as group_key")
 
     values, orig_types = zip(*list(map(_cast_timestamps_to_ints, values)))
     orig_type = orig_types[0]
